@@ -61,6 +61,7 @@ func Run(k *report.Check) {
 	k.Rule = "cluster simulation: a real Job, W real operators and source runners (W in {1,2}), a harness source of 1-2 splits with 5-6 records over keys that collide and spread across operators, key-group count 4, read size 1-2, batch size 1-2 with 10 ms time-out; components run with the default schedule, the explorer branches at network and environment events: the next queued RPC to deliver (default oldest first, any of the next three costs one deviation), the checkpoint tick positions (enumerated), a focused part (one worker) queues the job's snapshot file writes like remote calls - by default they complete only when no call is queued - and explores one more deviation; and the kill of any live worker at any network event (one deviation; a fresh worker registers, the survivor heartbeats, the job redeploys from its latest completed checkpoint). Oracle in the handler on every ProcessEventBatch: a record is never in the supplied state of its key already, every earlier record of the same split and key is; keys only reach their owning operator; at the end (input consumed, final checkpoint) the keyed state read back from the operators' DKV checkpoints with fresh databases equals the failure-free fold of the whole input. non-trivial = distinct (scenario, kill point, delivery order) executions with a kill, and of those the ones whose restore loaded non-empty state"
 	k.Assumptions = []string{"interleavings inside a component are the component checks' subject (C02, C04, C07, C08, C13, C20): here only network-level orders and failure points are explored", "a killed worker's calls fail from the kill on; storage is shared and survives"}
 	k.Budget(150, 1500)
+	k.Parts(2)
 	bound := k.Pick(1, 2)
 	k.ExploreSched(fmt.Sprintf("cluster/slow-snapshot-storage,deviations<=%d", bound+1), mc.Config{Bound: bound + 1, RecycleAfter: 1500, Deadline: k.Within(0.4)}, params{maxKills: 1, thorough: k.Thorough(), slowStorage: true}, body)
 	k.ExploreSched(fmt.Sprintf("cluster/deviations<=%d", bound), mc.Config{Bound: bound, RecycleAfter: 1500}, params{maxKills: bound, thorough: k.Thorough()}, body)
